@@ -16,8 +16,18 @@
   Quantizers are arbitrary tensor functions `List Rat → List Rat`; the driver plugs in
   `quantized_bits` of `QKV.Model.FixedQ`.
 
+  `data_format`: both layouts (`Geom.cf`): channels_last reads / writes NHWC, channels_first NCHW
+  (the kernel layout does not depend on it).  `ctorCfg` mirrors the constructors:
+  `QConv2DBatchnorm.__init__` accepts `data_format` and does NOT forward it (the layer is always
+  channels_last), `QDepthwiseConv2DBatchnorm.__init__` forwards it.
+
+  Layer OBJECTS and their histories (`Obj`, `Op`, `Obj.step`, `Obj.run`): the parameters can be
+  replaced between uses (`variable.assign`, `set_weights` — whose list contains the `_iteration`
+  counter —, `load_weights`); `get_folded_weights`, `unfold_model` and the inference call read the
+  CURRENT parameters and keep no memo.
+
   Not modelled: the training path (`training=True`: batch moments, the `y_corr` correction, the
-  `_iteration` counter and `ema_freeze_delay`), `data_format=channels_first`.
+  increments of `_iteration`, `ema_freeze_delay`).
   Core Lean only.
 -/
 import QKV.Model.Basic
@@ -43,6 +53,7 @@ structure Geom where
   dh : Nat       -- dilation_rate
   dw : Nat
   same : Bool    -- padding "same" (else "valid")
+  cf : Bool := false   -- data_format "channels_first" (NCHW tensors); else "channels_last" (NHWC)
   deriving Repr, DecidableEq
 
 /-- output extent along one axis: SAME `ceil(in/s)`, VALID `ceil((in - (k-1)d)/s)` -/
@@ -59,10 +70,12 @@ def Geom.ow (g : Geom) : Nat := outDim g.w g.kw g.sw g.dw g.same
 def Geom.pt (g : Geom) : Nat := padBefore g.h g.kh g.sh g.dh g.same
 def Geom.pl (g : Geom) : Nat := padBefore g.w g.kw g.sw g.dw g.same
 
-/-- input element `x[b, ih, iw, c]`, 0 in the padding -/
+/-- input element `x[b, ih, iw, c]` (channels_last) / `x[b, c, ih, iw]` (channels_first), 0 in the
+    padding -/
 def xAt (g : Geom) (x : T) (b : Nat) (ih iw : Int) (c : Nat) : Rat :=
   if 0 ≤ ih ∧ ih < g.h ∧ 0 ≤ iw ∧ iw < g.w then
-    x.getD (((b * g.h + ih.toNat) * g.w + iw.toNat) * g.cin + c) 0
+    if g.cf then x.getD (((b * g.cin + c) * g.h + ih.toNat) * g.w + iw.toNat) 0
+    else x.getD (((b * g.h + ih.toNat) * g.w + iw.toNat) * g.cin + c) 0
   else 0
 
 /-- row / column of the input read by output position `o` and kernel tap `i` -/
@@ -102,16 +115,36 @@ def LayerCfg.at (c : LayerCfg) (x k : T) (b oh ow co : Nat) : Rat :=
   | .conv => conv2dAt c.g c.cm x k b oh ow co
   | .dw => dwconv2dAt c.g c.cm x k b oh ow co
 
-/-- element `t` of the flat NHWC output -/
+/-- output channel of element `t` of the flat output: last axis (NHWC) or axis 1 (NCHW) -/
+def LayerCfg.chan (c : LayerCfg) (t : Nat) : Nat :=
+  if c.g.cf then t / (c.g.oh * c.g.ow) % c.cout else t % c.cout
+
+/-- element `t` of the flat output (NHWC, or NCHW when `cf`) -/
 def LayerCfg.atFlat (c : LayerCfg) (x k : T) (t : Nat) : Rat :=
-  c.at x k (t / (c.g.oh * c.g.ow * c.cout)) (t / (c.g.ow * c.cout) % c.g.oh) (t / c.cout % c.g.ow)
-    (t % c.cout)
+  if c.g.cf then
+    c.at x k (t / (c.cout * c.g.oh * c.g.ow)) (t / c.g.ow % c.g.oh) (t % c.g.ow) (c.chan t)
+  else
+    c.at x k (t / (c.g.oh * c.g.ow * c.cout)) (t / (c.g.ow * c.cout) % c.g.oh) (t / c.cout % c.g.ow)
+      (c.chan t)
 
 /-- `K.conv2d` / `K.depthwise_conv2d` of the whole tensor -/
 def convOp (c : LayerCfg) (x k : T) : T := tabulate c.outLen (c.atFlat x k)
 
-/-- `K.bias_add(y, b)` channels-last: `b` broadcast over the last axis of extent `cout` -/
-def biasAdd (cout : Nat) (y b : T) : T := y.mapIdx fun t v => v + b.getD (t % cout) 0
+/-- `K.bias_add(y, b, data_format)`: `b` broadcast over the channel axis; `ch t` = channel of flat
+    element `t` (`LayerCfg.chan`; `· % cout` for a channels_last tensor) -/
+def biasAdd (ch : Nat → Nat) (y b : T) : T := y.mapIdx fun t v => v + b.getD (ch t) 0
+
+/-- the configuration the constructors really build from the requested one:
+    `QConv2DBatchnorm.__init__(…, data_format=…)` does not pass `data_format` on to `QConv2D`
+    (whose default is "channels_last"), `QDepthwiseConv2DBatchnorm.__init__` does -/
+def ctorCfg (c : LayerCfg) : LayerCfg :=
+  match c.cls with
+  | .conv => { c with g := { c.g with cf := false } }
+  | .dw => c
+
+/-- the same layer applied to an input of another batch size / spatial extent -/
+def LayerCfg.withInput (c : LayerCfg) (n h w : Nat) : LayerCfg :=
+  { c with g := { c.g with n := n, h := h, w := w } }
 
 /-! ### batch-norm parameters and the fold -/
 
@@ -197,7 +230,7 @@ def Folded.callInference (L : Folded) (rs : Rat → Rat) (bs : BatchStats) (x : 
   | some fb =>
     let qfk := applyOpt L.qk (scaleKernel L.cfg invK L.kernel)
     let qfb := applyOpt L.qb fb
-    some (applyOpt L.act (biasAdd L.cfg.cout (convOp L.cfg x qfk) qfb))
+    some (applyOpt L.act (biasAdd L.cfg.chan (convOp L.cfg x qfk) qfb))
 
 /-- `get_folded_weights()`: `[inv * kernel, inv * (bias - moving_mean) + beta]` (not quantized) -/
 def Folded.foldedWeights (L : Folded) (rs : Rat → Rat) : Option (T × T) :=
@@ -219,7 +252,7 @@ structure Plain where
 /-- `QConv2D.call` / `QDepthwiseConv2D.call` -/
 def Plain.call (P : Plain) (x : T) : T :=
   let y := convOp P.cfg x (applyOpt P.qk P.kernel)
-  applyOpt P.act (match P.bias with | none => y | some b => biasAdd P.cfg.cout y (applyOpt P.qb b))
+  applyOpt P.act (match P.bias with | none => y | some b => biasAdd P.cfg.chan y (applyOpt P.qb b))
 
 /-- `unfold_model`: `convert_folded_layer_to_unfolded` copies the configuration (quantizers,
     geometry, activation) and forces `use_bias=True`; `_clone_weights` sets
@@ -229,14 +262,15 @@ def Folded.unfold (L : Folded) (rs : Rat → Rat) : Option Plain :=
   | none => none
   | some (fk, fb) => some { cfg := L.cfg, kernel := fk, bias := some fb, qk := L.qk, qb := L.qb, act := L.act }
 
-/-- stock `BatchNormalization` at inference on a channels-last tensor
+/-- stock `BatchNormalization(axis)` at inference; `ch t` = index along `axis` of flat element `t`
+    (`· % cout` for axis = -1 on a channels_last tensor, `LayerCfg.chan` in general)
     (`tf.nn.batch_normalization`: `x * inv + (beta - mean * inv)`, `inv = rsqrt(var+eps) [* gamma]`) -/
-def BN.infer (p : BN) (rs : Rat → Rat) (cout : Nat) (y : T) : T :=
+def BN.infer (p : BN) (rs : Rat → Rat) (ch : Nat → Nat) (y : T) : T :=
   let inv := mulGamma p.gamma (rsqrtVec rs p.var p.eps)
   y.mapIdx fun t v =>
-    v * inv.getD (t % cout) 0 +
-      ((match p.beta with | none => 0 | some bt => bt.getD (t % cout) 0)
-        - p.mean.getD (t % cout) 0 * inv.getD (t % cout) 0)
+    v * inv.getD (ch t) 0 +
+      ((match p.beta with | none => 0 | some bt => bt.getD (ch t) 0)
+        - p.mean.getD (ch t) 0 * inv.getD (ch t) 0)
 
 /-! ### networks (expression form): what conversion to a folded model does to the function -/
 
@@ -246,7 +280,7 @@ def BN.infer (p : BN) (rs : Rat → Rat) (cout : Nat) (y : T) : T :=
 inductive Net
   | input
   | conv (id : Nat) (P : Plain) (a : Net)              -- Conv2D / DepthwiseConv2D (or Q versions)
-  | bn (id : Nat) (p : BN) (cout : Nat) (a : Net)      -- BatchNormalization
+  | bn (id : Nat) (p : BN) (ch : Nat → Nat) (a : Net)  -- BatchNormalization (`ch`: channel of a flat index)
   | folded (id : Nat) (L : Folded) (a : Net)           -- QConv2DBatchnorm / QDepthwiseConv2DBatchnorm
   | un (id : Nat) (f : T → T) (a : Net)                -- any other one-input layer
   | bin (id : Nat) (f : T → T → T) (a b : Net)         -- any two-input merge layer
@@ -259,7 +293,7 @@ def noStats : BatchStats := { mean := [], var := [] }
 def Net.eval (rs : Rat → Rat) (x : T) : Net → Option T
   | .input => some x
   | .conv _ P a => (a.eval rs x).map P.call
-  | .bn _ p cout a => (a.eval rs x).map (p.infer rs cout)
+  | .bn _ p ch a => (a.eval rs x).map (p.infer rs ch)
   | .folded _ L a => (a.eval rs x).bind (L.callInference rs noStats)
   | .un _ f a => (a.eval rs x).map f
   | .bin _ f a b => (a.eval rs x).bind fun u => (b.eval rs x).map fun v => f u v
@@ -275,10 +309,10 @@ def foldLayer (P : Plain) (p : BN) (mode : FoldMode) : Folded :=
 def Net.fold (S : Nat → Bool) (mode : FoldMode) : Net → Net
   | .input => .input
   | .conv i P a => .conv i P (a.fold S mode)
-  | .bn j p cout (.conv i P a) =>
+  | .bn j p ch (.conv i P a) =>
       if S i then .folded i (foldLayer P p mode) (a.fold S mode)
-      else .bn j p cout (.conv i P (a.fold S mode))
-  | .bn j p cout a => .bn j p cout (a.fold S mode)
+      else .bn j p ch (.conv i P (a.fold S mode))
+  | .bn j p ch a => .bn j p ch (a.fold S mode)
   | .folded i L a => .folded i L (a.fold S mode)
   | .un i f a => .un i f (a.fold S mode)
   | .bin i f a b => .bin i f (a.fold S mode) (b.fold S mode)
@@ -288,9 +322,9 @@ def Net.fold (S : Nat → Bool) (mode : FoldMode) : Net → Net
 def Net.dropBN (S : Nat → Bool) : Net → Net
   | .input => .input
   | .conv i P a => .conv i P (a.dropBN S)
-  | .bn j p cout (.conv i P a) =>
-      if S i then .conv i P (a.dropBN S) else .bn j p cout (.conv i P (a.dropBN S))
-  | .bn j p cout a => .bn j p cout (a.dropBN S)
+  | .bn j p ch (.conv i P a) =>
+      if S i then .conv i P (a.dropBN S) else .bn j p ch (.conv i P (a.dropBN S))
+  | .bn j p ch a => .bn j p ch (a.dropBN S)
   | .folded i L a => .folded i L (a.dropBN S)
   | .un i f a => .un i f (a.dropBN S)
   | .bin i f a b => .bin i f (a.dropBN S) (b.dropBN S)
@@ -300,7 +334,7 @@ def Net.dropBN (S : Nat → Bool) : Net → Net
 def Net.unfoldAll (rs : Rat → Rat) : Net → Option Net
   | .input => some .input
   | .conv i P a => (a.unfoldAll rs).map (.conv i P)
-  | .bn j p cout a => (a.unfoldAll rs).map (.bn j p cout)
+  | .bn j p ch a => (a.unfoldAll rs).map (.bn j p ch)
   | .folded i L a => (L.unfold rs).bind fun P => (a.unfoldAll rs).map (.conv i P)
   | .un i f a => (a.unfoldAll rs).map (.un i f)
   | .bin i f a b => (a.unfoldAll rs).bind fun a' => (b.unfoldAll rs).map fun b' => .bin i f a' b'
@@ -310,7 +344,7 @@ def Net.unfoldAll (rs : Rat → Rat) : Net → Option Net
 def Net.foldable : Net → Prop
   | .input => True
   | .conv _ _ a => a.foldable
-  | .bn _ _ cout (.conv _ P a) => P.act = none ∧ P.qk = none ∧ P.qb = none ∧ cout = P.cfg.cout ∧ a.foldable
+  | .bn _ _ ch (.conv _ P a) => P.act = none ∧ P.qk = none ∧ P.qb = none ∧ ch = P.cfg.chan ∧ a.foldable
   | .bn _ _ _ a => a.foldable
   | .folded _ _ a => a.foldable
   | .un _ _ a => a.foldable
@@ -371,7 +405,7 @@ def quantizedClass (g : Graph) (hasQ : Nat → Bool) (i : Nat) : Nat :=
 inductive LayerOp
   | input
   | conv (P : Plain)
-  | bn (p : BN) (cout : Nat)
+  | bn (p : BN) (ch : Nat → Nat)
   | folded (L : Folded)
   | un (f : T → T)
   | bin (f : T → T → T)
@@ -388,5 +422,119 @@ def toNet (g : Graph) (ops : Nat → LayerOp) : Nat → Nat → Net
     | .folded L => .folded i L a
     | .un f => .un i f a
     | .bin f => .bin i f a (toNet g ops fuel (ps.getD 1 0))
+
+/-! ### layer objects and histories on one object
+
+  The folded layers are live objects: between two uses their parameters can be replaced WITHOUT a
+  training step (`variable.assign`, `layer.set_weights` / `model.set_weights` / `load_weights` —
+  the weight list contains the `_iteration` counter, so a checkpoint restores it too).
+  `get_folded_weights()`, `unfold_model` (`convert_folded_layer_to_unfolded` + `_clone_weights`) and
+  the inference call are functions of the CURRENT parameters only: no memo, no dependence on
+  `_iteration`, on earlier calls or on the order of the calls. -/
+
+inductive Slot | kernel | bias | gamma | beta | mean | var
+  deriving Repr, DecidableEq
+
+/-- a live layer object: current parameters and the `_iteration` variable (initialised with -1) -/
+structure Obj where
+  L : Folded
+  iteration : Int := -1
+
+/-- `variable.assign(v)` on one of the layer's variables; `none`: the layer has no such variable
+    (`layer.bias` / `batchnorm.gamma` / `batchnorm.beta` is None) and the statement raises -/
+def Folded.assign (L : Folded) (s : Slot) (v : T) : Option Folded :=
+  match s with
+  | .kernel => some { L with kernel := v }
+  | .bias => if L.bias.isSome then some { L with bias := some v } else none
+  | .gamma => if L.bn.gamma.isSome then some { L with bn := { L.bn with gamma := some v } } else none
+  | .beta => if L.bn.beta.isSome then some { L with bn := { L.bn with beta := some v } } else none
+  | .mean => some { L with bn := { L.bn with mean := v } }
+  | .var => some { L with bn := { L.bn with var := v } }
+
+/-- `layer.get_weights()`: trainable weights first (`kernel`, `bias`, `gamma`, `beta` — those that
+    exist), then the non-trainable ones (`iteration`, `moving_mean`, `moving_variance`) -/
+def Obj.getWeights (o : Obj) : List T :=
+  o.L.kernel :: (o.L.bias.toList ++ (o.L.bn.gamma.toList ++ (o.L.bn.beta.toList
+    ++ [[(o.iteration : Rat)], o.L.bn.mean, o.L.bn.var])))
+
+def takeIf (present : Bool) (ws : List T) : Option (Option T × List T) :=
+  if present then (match ws with | w :: r => some (some w, r) | [] => none) else some (none, ws)
+
+/-- `layer.set_weights(ws)`: the same order; `none` (ValueError) when the number of arrays is not
+    the number of variables.  Shapes are not modelled (tensors are flat). -/
+def Obj.setWeights (o : Obj) (ws : List T) : Option Obj :=
+  match ws with
+  | [] => none
+  | k :: r0 =>
+    (takeIf o.L.bias.isSome r0).bind fun br =>
+    (takeIf o.L.bn.gamma.isSome br.2).bind fun gr =>
+    (takeIf o.L.bn.beta.isSome gr.2).bind fun tr =>
+    match tr.2 with
+    | [it, m, v] =>
+      some { L := { o.L with kernel := k, bias := br.1,
+                             bn := { o.L.bn with gamma := gr.1, beta := tr.1, mean := m, var := v } },
+             iteration := (it.getD 0 0).floor }
+    | _ => none
+
+/-- the same layer object called on an input of another batch size / spatial extent -/
+def Folded.onInput (L : Folded) (n h w : Nat) : Folded := { L with cfg := L.cfg.withInput n h w }
+
+/-- one use of a layer object -/
+inductive Op
+  | getFolded                              -- layer.get_folded_weights()
+  | unfold (n h w : Nat) (x : T)           -- unfold_model(model of this layer), then predict(x)
+  | predict (n h w : Nat) (x : T)          -- layer(x, training=False) / model.predict(x)
+  | assign (s : Slot) (v : T)              -- variable.assign(v)
+  | setWeights (ws : List T)               -- layer.set_weights(ws) / load_weights
+  | setIteration (i : Int)                 -- layer._iteration.assign(i)
+  | reconfigure (qk qb : Option (T → T))   -- the quantizer attributes replaced after construction
+                                           -- (as `populate_bias_quantizer_from_accumulator` does)
+
+def Op.observer : Op → Bool
+  | .getFolded => true
+  | .unfold _ _ _ _ => true
+  | .predict _ _ _ _ => true
+  | _ => false
+
+/-- what one use shows -/
+inductive Obs
+  | weights (w : Option (T × T))                    -- [folded kernel, folded bias]
+  | unfolded (w : Option (T × T)) (y : Option T)    -- weights of the unfolded layer, its output
+  | out (y : Option T)
+  | done (ok : Bool)                                -- a mutation; false: it raised, nothing changed
+  deriving Repr, DecidableEq
+
+def Obj.step (rs : Rat → Rat) (o : Obj) : Op → Obj × Obs
+  | .getFolded => (o, .weights (o.L.foldedWeights rs))
+  | .unfold n h w x =>
+    (o, .unfolded (((o.L.onInput n h w).unfold rs).map fun P => (P.kernel, P.bias.getD []))
+                  (((o.L.onInput n h w).unfold rs).map fun P => P.call x))
+  | .predict n h w x => (o, .out ((o.L.onInput n h w).callInference rs noStats x))
+  | .assign s v =>
+    match o.L.assign s v with
+    | none => (o, .done false)
+    | some L' => ({ o with L := L' }, .done true)
+  | .setWeights ws =>
+    match o.setWeights ws with
+    | none => (o, .done false)
+    | some o' => (o', .done true)
+  | .setIteration i => ({ o with iteration := i }, .done true)
+  | .reconfigure qk qb => ({ o with L := { o.L with qk := qk, qb := qb } }, .done true)
+
+/-- a history: the uses one after the other on the same object -/
+def Obj.run (rs : Rat → Rat) (o : Obj) : List Op → Obj × List Obs
+  | [] => (o, [])
+  | op :: ops => ((( o.step rs op).1.run rs ops).1, (o.step rs op).2 :: (((o.step rs op).1.run rs ops).2))
+
+/-- parameters of a folded layer inside a network replaced (`model.layers[id].<variable>.assign`);
+    a layer without that variable is left alone -/
+def Net.assign (id : Nat) (s : Slot) (v : T) : Net → Net
+  | .input => .input
+  | .conv i P a => .conv i P (a.assign id s v)
+  | .bn j p ch a => .bn j p ch (a.assign id s v)
+  | .folded i L a =>
+    .folded i (if i = id then (L.assign s v).getD L else L) (a.assign id s v)
+  | .un i f a => .un i f (a.assign id s v)
+  | .bin i f a b => .bin i f (a.assign id s v) (b.assign id s v)
 
 end QKV.Fold
